@@ -30,6 +30,7 @@ class HDisc(Discipline):
         self.n_run = 0
         self.n_jac = 0
         self.run_inputs = []
+        self.h_inplace = False  # the body overwrites its writeable input arrays in place (legal: its own copy)
         if defaults:
             for k, n in enumerate(self.h_in):
                 self.io.input_grammar.defaults[n] = full(self.h_sizes[n], 0.5 + 0.25 * k)
@@ -69,6 +70,11 @@ class HDisc(Discipline):
         self.n_run += 1
         snap = {k: array(input_data[k], dtype=float, copy=True) for k in self.h_in}
         self.run_inputs.append(snap)
+        if self.h_inplace:
+            for k in self.h_in:
+                v = input_data[k]
+                if getattr(v, "flags", None) is not None and v.flags.writeable:
+                    v[...] = -7.0 - self.h_salt
         if self.hook is not None:
             self.hook(self, "run", snap)
         return self.f(snap)
